@@ -16,7 +16,7 @@ enum PcapTsFormat {
     NanoSeconds,
 }
 
-#[derive(Debug)]
+#[derive(Debug, Clone)]
 pub struct PcapGlobalHeader {
     magic_number: u32,
     version_major: u16,
@@ -395,8 +395,12 @@ impl Pcap {
 
     /// Write global header to a newly created pcap file
     pub fn new_with_magic(file: Rc<FileHandle>, magic: u32) -> io::Result<Self> {
+        Self::new_with_header(file, PcapGlobalHeader::new(magic))
+    }
+
+    /// Write the given global header to a newly created pcap file
+    pub fn new_with_header(file: Rc<FileHandle>, global_header: PcapGlobalHeader) -> io::Result<Self> {
         // Write the pcap global header to the file
-        let global_header = PcapGlobalHeader::new(magic);
         let bytes: Vec<u8> = (&global_header).into();
         match file.as_ref() {
             FileHandle::Writer(writer) => {
